@@ -280,7 +280,11 @@ def _get_best_taylor_coefficients(bs, rs, m, max_m1m2):
     mvec = np.arange(m)
     if len(extrap) > 2:
         all_coefs, all_errors = dea3(extrap[:-2], extrap[1:-1], extrap[2:])
-        steps = np.atleast_1d(rs[4:])[:, None] * mvec
+        radii = np.atleast_1d(rs[4:])[:, None]
+        steps = radii * mvec
+        # no estimate is better than the rounding error of the FFT on its own circle
+        # (tiny circles can give exactly 0.0 three times in a row, i.e. error estimate 0.0)
+        all_errors = np.maximum(all_errors, EPS / np.power(radii, mvec) * max_m1m2())
         # pylint: disable=protected-access
         coefs, info = _Limit._get_best_estimate(all_coefs, all_errors, steps, (m,))
         errors = info.error_estimate
